@@ -263,6 +263,6 @@ MUTANTS = [
     {'name': 'wrap: token dropped when starting a new line', 'expect': ('REF.wrap', 'obj_to_cti'),
      'edits': [(W_, "                    cti_lines.append('{}{}'.format(header_spaces, cti_val))", "                    cti_lines.append('{}'.format(header_spaces))")]},
     {'name': 'wrap: limit off by the separator', 'expect': ('REF.wrap-width', 'obj_to_cti'),
-     'edits': [(W_, 'elif len(cti_lines[-1]) + len(cti_val) + 1 <= line_limit:', 'elif len(cti_lines[-1]) + len(cti_val) - 3 <= line_limit:')]},
+     'edits': [(W_, 'elif (len(cti_lines[-1]) + len(cti_val) + 1) <= line_limit:', 'elif (len(cti_lines[-1]) + len(cti_val) - 3) <= line_limit:')]},
 ]
 EQUIV = []
